@@ -90,6 +90,27 @@ package denco
 //@ loop 0 invariant 0 <= i && i <= len(params) && calls(LK) == 1 && found && nd == ret(LK,0,0) && nd != nil && len(params) == len(nd.paramNames) && params == ret(LK,0,1)
 //@ loop 0 invariant forall k int :: 0 <= k && k < i ==> params[k].Name == nd.paramNames[k]
 
+// the multiplexer built on the router looks up the request's decoded path under the request's method
+//@ func (*serveMux).handler
+//@ watch LK = call (*Router).Lookup
+//@ mayabsent LK
+//@ requires mux != nil
+// (what Mux.Build leaves behind: a router per registered method, whose values are the non-nil handler functions of the
+// registered handlers; assumed here, the construction is outside the contracts)
+//@ assumes forall m string :: in(m, mux.routers) ==> mux.routers[m] != nil
+//@ assume after LK ret(LK,0,2) ==> typeis(ret(LK,0,0), "github.com/go-openapi/runtime/middleware/denco.HandlerFunc") && unbox(ret(LK,0,0), "github.com/go-openapi/runtime/middleware/denco.HandlerFunc") != nil
+//@ ensures old(NotFound) != nil ==> result0 != nil
+//@ ensures [C05:mux] calls(LK) <= 1 && (in(method, mux.routers) ==> calls(LK) == 1 && arg(LK,0,0) == mux.routers[method] && arg(LK,0,1) == path) && (!in(method, mux.routers) ==> calls(LK) == 0 && result1 == nil)
+//@ ensures [C05:muxparams] calls(LK) == 1 && ret(LK,0,2) ==> result1 == ret(LK,0,1)
+//@ panics ok
+
+//@ func (*serveMux).ServeHTTP
+//@ watch H = call (*serveMux).handler
+//@ requires mux != nil && r != nil && r.URL != nil
+// (NotFound is an exported variable; a program that sets it to nil makes unmatched requests panic)
+//@ assumes NotFound != nil
+//@ ensures [C05:muxpath] calls(H) == 1 && arg(H,0,0) == mux && arg(H,0,1) == old(r.Method) && arg(H,0,2) == old(r.URL.Path)
+
 //@ func NewRecord
 //@ ensures result.Key == key && result.Value == value
 //@ assigns \nothing
